@@ -446,8 +446,9 @@ class Dispatcher(BaseDispatcher, Generic[ContextType]):
         except (pjrpc.exceptions.DeserializationError, pjrpc.exceptions.IdentityError) as e:
             response = self._response_class(id=None, error=pjrpc.exceptions.InvalidRequestError(data=str(e)))
 
-        except ValueError as e:
-            # the loader may fail with a plain ValueError, e.g. an integer literal above the int conversion limit
+        except (ValueError, RecursionError) as e:
+            # the loader may fail with a plain ValueError, e.g. an integer literal above the int conversion limit,
+            # or with a RecursionError for a document nested deeper than the interpreter can parse
             response = self._response_class(id=None, error=pjrpc.exceptions.ParseError(data=str(e)))
 
         else:
@@ -593,8 +594,9 @@ class AsyncDispatcher(BaseDispatcher, Generic[ContextType]):
         except (pjrpc.exceptions.DeserializationError, pjrpc.exceptions.IdentityError) as e:
             response = self._response_class(id=None, error=pjrpc.exceptions.InvalidRequestError(data=str(e)))
 
-        except ValueError as e:
-            # the loader may fail with a plain ValueError, e.g. an integer literal above the int conversion limit
+        except (ValueError, RecursionError) as e:
+            # the loader may fail with a plain ValueError, e.g. an integer literal above the int conversion limit,
+            # or with a RecursionError for a document nested deeper than the interpreter can parse
             response = self._response_class(id=None, error=pjrpc.exceptions.ParseError(data=str(e)))
 
         else:
